@@ -151,6 +151,25 @@ def check_state(acc, pendulum, z, inst):
         if type(v) is not t:
             acc.mismatch("result-type", k, case, type(v).__name__, t.__name__)
     check_constructors(acc, pendulum, z, inst, x, b, case)
+    if z is None or isinstance(z, int) or z == "UTC":
+        # +/- with Duration operands that are SHARED by all states of the process (a module-level Duration, the library's own
+        # resolution constants): the same answer as the native twin with the equal timedelta, every time
+        if "dur" not in _PEND:
+            _PEND["dur"] = pendulum.Duration(hours=5, minutes=30)
+        D, td = _PEND["dur"], dt_.timedelta(hours=5, minutes=30)
+        for name, fn, nat in (("x-Duration", lambda: x - D, lambda: b - td), ("x+Duration", lambda: x + D, lambda: b + td),
+                              ("Duration+x", lambda: D + x, lambda: td + b), ("x-Duration(again)", lambda: x - D, lambda: b - td),
+                              ("x+Time.resolution", lambda: x + pendulum.Time.resolution, lambda: b + dt_.time.resolution),
+                              ("x-Duration.resolution", lambda: x - pendulum.Duration.resolution, lambda: b - dt_.timedelta.resolution)):
+            # (fields, offset and type; the raw fold flag of an unambiguous value is not compared)
+            obs_ = lambda r: (type(r).__name__ if not isinstance(r, pendulum.DateTime) else "DateTime", list(obs.fields(r)),  # noqa: E731
+                              None if r.tzinfo is None else obs.offset_s(r))
+            got = _try(lambda: obs_(fn()))
+            want = _try(lambda: ("DateTime",) + obs_(nat())[1:])
+            acc.c["evaluations"] += 1
+            acc.c["transitions"] += 1
+            if got != want:
+                acc.mismatch("operator", f"shared-duration-operand/{name}", dict(case, op=name), got, want)
     for kw in REPLACE_DT:
         if z is not None and not isinstance(z, int) and "tzinfo" not in kw:
             # replacing wall fields inside a named zone is construction (C02): compare only where the target wall
